@@ -313,6 +313,14 @@ pub fn case_for(seed: u64, tier: Tier, run: u64) -> Case {
     let curve = CURVES[(run % 3) as usize];
     let mut rng = sub_rng(seed, "C10", run, "case");
     let kmax = tier.pick(5usize, 7);
+    // beyond the property's k <= 7: a few long arguments (9-10 rounds) so that
+    // any code path that only engages for wide rounds is exercised
+    if run % tier.pick(400u64, 250) == 123 {
+        use rand_core::RngCore;
+        let mut rng = sub_rng(seed, "C10", run, "long");
+        let k = 8 + below(&mut rng, tier.pick(2, 3));
+        return Case { curve: CURVES[(run % 3) as usize], k, vec_kind: (rng.next_u32() % 49) as u8, fac_kind: (rng.next_u32() % 16) as u8, seed: rng.next_u64(), tampers: vec![IppTamper::None, IppTamper::WrongProduct(S::U(1))] };
+    }
     // small k more often; every k regularly
     let k = if run < 3 * (kmax as u64 + 1) { (run / 3) as usize } else { std::cmp::min(below(&mut rng, kmax + 1), below(&mut rng, kmax + 2)) };
     let k = std::cmp::min(k, kmax);
